@@ -69,8 +69,10 @@ TRUSTED = [
     ">= 0.05 apart, so rounding is amplified by at most eps*(bandwidth/0.05)^4 ~ 3e-10 (observed <= 1e-12); "
     "symmetry-forbidden components are exactly 0 on the symmetrised side and rounding noise on the other",
 ]
-RULE = ("symmetric models: cubic / tetragonal / hexagonal P lattices, random generator subsets with and without time "
-        "reversal and black-white (magnetic) combinations, 1-6 s-like orbitals on site orbits; grids NKdiv x NKFFT accepted "
+RULE = ("symmetric models: cubic / tetragonal / orthorhombic / monoclinic / hexagonal / rhombohedral lattices in conventional "
+        "and oblique (non-reduced) cells, random generator subsets with and without time "
+        "reversal and black-white (magnetic) combinations, the group declared to the code by PointSymmetry objects or by "
+        "generator strings (single names and products of non-commuting named operations such as 'C4z*Mx'), 1-6 s-like orbitals on site orbits; grids NKdiv x NKFFT accepted "
         "by the code, isotropic and anisotropic; static (ranks 0-3), dynamic (ranks 0-3) and tabulating calculators; "
         "synthetic calculators returning arbitrary / orbit-built equivariant tensors of rank 0-3 for every Transform pair. "
         "non-trivial = group order >= 2 and more than one irreducible K-point; distinct = distinct (model, grid, calculator)")
@@ -203,6 +205,82 @@ def check_cover(ctx, K_list, Ns, div, case, kf=None):
     return True
 
 
+
+# ------------------------------------------------------------------------------------------------
+# declaring the point group by generator STRINGS ('C4z', 'C4z*Mx', 'TimeReversal*C2x', ...)
+
+def documented_named_matrices():
+    """the matrices the module docstring of point_symmetry promises for the names of dict_sym (own tables)"""
+    return {"Inversion": np.array(c09.CART["I"], float), "Mx": np.array(c09.CART["IC2x"], float),
+            "My": np.array(c09.CART["IC2y"], float), "Mz": np.array(c09.CART["IC2z"], float),
+            "C2x": np.array(c09.CART["C2x"], float), "C2y": np.array(c09.CART["C2y"], float),
+            "C2z": np.array(c09.CART["C2z"], float), "C4x": np.array(c09.CART["C4x"], float),
+            "C4y": np.array(c09.CART["C4y"], float), "C4z": np.array(c09.CART["C4z"], float),
+            "C3z": np.array(c09.HEXOPS["C3z"], float), "C6z": np.array(c09.HEXOPS["C6z"], float)}
+
+
+_PRODUCT_TABLE = None
+
+
+def product_table():
+    """all products of one, two or three documented named operations: matrix -> list of factor lists"""
+    global _PRODUCT_TABLE
+    if _PRODUCT_TABLE is None:
+        NM = documented_named_matrices()
+        names = list(NM)
+        tab = {}
+        for n in (1, 2, 3):
+            for fs in itertools.product(names, repeat=n):
+                M = np.eye(3)
+                for f in fs:
+                    M = M @ NM[f]
+                key = tuple(np.round(M, 6).reshape(-1) + 0.0)
+                tab.setdefault(key, []).append(list(fs))
+        _PRODUCT_TABLE = (tab, NM)
+    return _PRODUCT_TABLE
+
+
+def operation_as_string(rng, R_full, tr):
+    """a generator string whose documented meaning (product of the named operations, left to right as matrices) is the
+    operation (R_full, tr); products of non-commuting factors preferred.  None if the operation is not expressible."""
+    tab, NM = product_table()
+    key = tuple(np.round(np.array(R_full, float), 6).reshape(-1) + 0.0)
+    if np.abs(np.array(R_full, float) - np.eye(3)).max() < 1e-9:
+        return "TimeReversal" if tr else "Identity"
+    cands = tab.get(key)
+    if not cands:
+        return None
+
+    def noncommuting(fs):
+        return any(np.abs(NM[a] @ NM[b] - NM[b] @ NM[a]).max() > 1e-9 for a in fs for b in fs)
+    multi = [fs for fs in cands if len(fs) >= 2 and noncommuting(fs)]
+    fs = list(rng.choice(multi if (multi and rng.random() < 0.7) else cands))
+    if tr:
+        fs.insert(rng.randrange(len(fs) + 1), "TimeReversal")
+    return "*".join(fs)
+
+
+def generator_strings(rng, fam, names, trs):
+    out = []
+    for nm, tr in zip(names, trs):
+        st = operation_as_string(rng, fam.cart(nm), bool(tr))
+        if st is None:
+            return None
+        out.append(st)
+    return out
+
+
+def declared_group_matches(ctx, s, G, case):
+    """the code's point group (from the generator strings) must be the group the model was built for"""
+    want = {(tuple(np.round(R, 6).reshape(-1) + 0.0), bool(tr)) for R, tr in G}
+    got = {(tuple(np.round(np.array(S.R, float) * S.iInv, 6).reshape(-1) + 0.0), bool(S.TR)) for S in s.pointgroup.symmetries}
+    if want != got:
+        ctx.fail(f"set_pointgroup({case.get('generator_strings')}) gives a point group of {len(got)} operations that is not "
+                 f"the group generated by the documented products ({len(want)} operations; "
+                 f"{len(want - got)} missing, {len(got - want)} foreign)", case)
+        return False
+    return True
+
 # ------------------------------------------------------------------------------------------------
 # genuinely symmetric real-space models (explicit group average)
 
@@ -219,7 +297,7 @@ FAMILY_CYCLE = [("tetra", False), ("ortho", True), ("hex", False), ("mono", True
                 ("tetra", True), ("ortho", False), ("hex", True), ("mono", False)]
 
 
-def build_symmetric_system(rs, fam, names, trs, seeds, nbonds=7, maxR=1, scale_AA=0.3):
+def build_symmetric_system(rs, fam, names, trs, seeds, nbonds=7, maxR=1, scale_AA=0.3, gen_strings=None):
     """returns (symmetric System_R, unsymmetrised companion System_R on the same sites, elements, sites)"""
     from wannierberri.system.system_R import System_R
     from wannierberri.fourier.rvectors import Rvectors
@@ -303,7 +381,10 @@ def build_symmetric_system(rs, fam, names, trs, seeds, nbonds=7, maxR=1, scale_A
             s.set_R_mat('AA', AA)
             s.do_at_end_of_init()
             if with_group:
-                s.set_pointgroup(symmetry_gen=[PointSymmetry(fam.cart(nm), TR=bool(tr)) for nm, tr in zip(names, trs)])
+                if gen_strings is not None:
+                    s.set_pointgroup(symmetry_gen=list(gen_strings))
+                else:
+                    s.set_pointgroup(symmetry_gen=[PointSymmetry(fam.cart(nm), TR=bool(tr)) for nm, tr in zip(names, trs)])
         return s
     return make(Hs, As, True), make(H0, A0, False), G, sites
 
@@ -556,10 +637,20 @@ def oracle_physical(ctx, scale):
                     site_seeds=[[str(x) for x in s] for s in seeds])
         # draw hoppings until the bands on the grid are either exactly degenerate (symmetry) or at least MIN_GAP apart:
         # then rounding is amplified by at most eps * (bandwidth / MIN_GAP)^4 ~ 3e-10 and a flat 1e-9 tolerance is sharp
+        # the group is declared to the code either by PointSymmetry objects or - as users do - by generator strings
+        gstr = generator_strings(rng, fam, names, trs) if rng.random() < 0.6 else None
+        case["generator_strings"] = gstr
+        ctx.count("oracle.physical.group_declared_by=" + ("strings" if gstr else "objects"))
+        if gstr and any("*" in g for g in gstr):
+            ctx.count("oracle.physical.product_strings")
         accepted = False
+        group_ok = True
         for attempt in range(8):
-            sys_sym, sys0, G, sites = build_symmetric_system(rs, fam, names, trs, seeds)
+            sys_sym, sys0, G, sites = build_symmetric_system(rs, fam, names, trs, seeds, gen_strings=gstr)
             if attempt == 0:
+                group_ok = declared_group_matches(ctx, sys_sym, G, case)
+                if not group_ok:
+                    break
                 validate_symmetric(ctx, sys_sym, G, case)
                 Ns = [kmat_exact(fam, R, tr) for R, tr in G]
                 # (the known-finding grid class - sheared anisotropic NKFFT - is witnessed elsewhere)
@@ -568,6 +659,8 @@ def oracle_physical(ctx, scale):
             if near == 0 and gmin >= MIN_GAP:
                 accepted = True
                 break
+        if not group_ok:
+            continue
         ctx.count("oracle.physical.hopping_redraws", attempt)
         if not accepted:
             ctx.count("oracle.physical.no_well_separated_model_found")
@@ -702,7 +795,14 @@ def synthetic_setup(ctx, rng, famname, max_order, max_pts, oblique=False, sheare
     fam, names, trs, gens, cl = group_of(rng, famname, max_order, oblique)
     rs = np.random.RandomState(rng.getrandbits(31))
     seeds = [fam.conv_to_cell((0, 0, 0) if famname != "hex" else (Fr(1, 3), Fr(2, 3), 0))]
-    sys_sym, sys0, G, sites = build_symmetric_system(rs, fam, names, trs, seeds, nbonds=2)
+    gstr = generator_strings(rng, fam, names, trs) if rng.random() < 0.6 else None
+    sys_sym, sys0, G, sites = build_symmetric_system(rs, fam, names, trs, seeds, nbonds=2, gen_strings=gstr)
+    ctx.count("synthetic.group_declared_by=" + ("strings" if gstr else "objects"))
+    if gstr and any("*" in g for g in gstr):
+        ctx.count("synthetic.product_strings")
+    if not declared_group_matches(ctx, sys_sym, G, dict(family=famname, lattice=fam.name, generators=names,
+                                                        TR=[bool(t) for t in trs], generator_strings=gstr)):
+        return None
     Ns = [kmat_exact(fam, R, tr) for R, tr in G]
     div, fft = pick_grid(rng, sys_sym.pointgroup, Ns, max_pts, sheared_fft_prob=sheared_fft_prob)
     return fam, names, trs, sys_sym, G, Ns, div, fft
@@ -714,7 +814,10 @@ def oracle_synthetic(ctx, scale):
     rng = ctx.rng
     for it in range(ctx.n(12, 60) * scale):
         famname, oblique = FAMILY_CYCLE[(it + 1) % len(FAMILY_CYCLE)]
-        fam, names, trs, sys_sym, G, Ns, div, fft = synthetic_setup(ctx, rng, famname, 48, ctx.n(96, 216), oblique)
+        setup = synthetic_setup(ctx, rng, famname, 48, ctx.n(96, 216), oblique)
+        if setup is None:
+            continue
+        fam, names, trs, sys_sym, G, Ns, div, fft = setup
         ntot = tuple(a * b for a, b in zip(div, fft))
         rank = rng.choice([0, 1, 2, 2, 3])
         tT, tI = rand_transform_pair(rng, rank, valid=True)
@@ -976,7 +1079,10 @@ def corr(ctx):
     # --- run(): weighted symmetrised sum with synthetic calculators returning ARBITRARY tables (not equivariant)
     for it in range(ctx.n(4, 24)):
         famname, oblique = FAMILY_CYCLE[(it + 1) % len(FAMILY_CYCLE)]
-        fam, names, trs, sys_sym, G, Ns, div, fft = synthetic_setup(ctx, rng, famname, 16, 48, oblique, sheared_fft_prob=0.0)
+        setup = synthetic_setup(ctx, rng, famname, 16, 48, oblique, sheared_fft_prob=0.0)
+        if setup is None:
+            continue
+        fam, names, trs, sys_sym, G, Ns, div, fft = setup
         fft = (1, 1, 1)
         rank = rng.choice([0, 1, 2])
         tT, tI = rand_transform_pair(rng, rank, valid=True)
